@@ -268,6 +268,11 @@ def main():
     if crash is not None:
         concrete.append({"request": crash["crashing_request"], "impl": f"process died (status {crash['rc']})",
                          "model": "(total function)", "why": crash["what"]})
+    # property-specific extra stage (e.g. C19: other processes / alternative builds)
+    post = cfg.get("post")
+    if post and err is None:
+        for f in post(res, cfg, rundir, sh, HARN):
+            concrete.append({"oracle_failure": f})
     # implementation-side oracle failures reported by the harness itself (meta.extra.oracle_failures)
     for of in res.cov.get("harness_extra", {}).get("oracle_failures", []):
         concrete.append({"oracle_failure": of})
